@@ -840,34 +840,41 @@ def entails(prems, concl, rlimit=3000000):
             return 'valid', 'truth table over %d atoms' % len(keys)
     except Unsupported as e:
         return 'unknown', 'truth-table: %s' % e
-    try:
-        E = Z3Enc()
-        z3 = E.z3
-        s = z3.Solver(ctx=E.ctx)
-        s.set('rlimit', rlimit)        # deterministic resource bound (no timer thread per query)
-        for hs, p in prems:
-            if hs:
-                s.add(z3.Implies(z3.And(*[E.tr(h) for h in hs]) if len(hs) > 1 else E.tr(hs[0]), E.tr(p)))
-            else:
-                s.add(E.tr(p))
-        for h in concl[0]:
-            s.add(E.tr(h))
-        s.add(z3.Not(E.tr(concl[1])))
-        r = s.check()
-        if r == z3.unsat:
-            return 'valid', 'z3 unsat'
-        if r != z3.sat:
-            return 'unknown', 'z3 unknown: %s' % s.reason_unknown()
-        M = E.model(s.model(), fvs)
-        if counter_model_holds(prems, concl, M):
-            return 'invalid', describe_model(M)
-        return 'unknown', 'z3 model does not validate by evaluation'
-    except Unsupported as e:
-        return 'unknown', 'unsupported: %s' % e
-    except Exception as e:  # z3 errors
-        if type(e).__name__ in ('Z3Exception',):
-            return 'unknown', 'z3 error: %s' % e
-        raise
+    for attempt in (0, 1):
+        try:
+            return _z3_entails(prems, concl, fvs, rlimit)
+        except Unsupported as e:
+            return 'unknown', 'unsupported: %s' % e
+        except Exception as e:  # z3 errors: retry once in a fresh context, then give up (inconclusive)
+            if type(e).__name__ != 'Z3Exception':
+                raise
+            _Z3['pid'] = None
+            if attempt == 1:
+                return 'unknown', 'z3 error: %s' % e
+
+
+def _z3_entails(prems, concl, fvs, rlimit):
+    E = Z3Enc()
+    z3 = E.z3
+    s = z3.Solver(ctx=E.ctx)
+    s.set('rlimit', rlimit)        # deterministic resource bound (no timer thread per query)
+    for hs, p in prems:
+        if hs:
+            s.add(z3.Implies(z3.And(*[E.tr(h) for h in hs]) if len(hs) > 1 else E.tr(hs[0]), E.tr(p)))
+        else:
+            s.add(E.tr(p))
+    for h in concl[0]:
+        s.add(E.tr(h))
+    s.add(z3.Not(E.tr(concl[1])))
+    r = s.check()
+    if r == z3.unsat:
+        return 'valid', 'z3 unsat'
+    if r != z3.sat:
+        return 'unknown', 'z3 unknown: %s' % s.reason_unknown()
+    M = E.model(s.model(), fvs)
+    if counter_model_holds(prems, concl, M):
+        return 'invalid', describe_model(M)
+    return 'unknown', 'z3 model does not validate by evaluation'
 
 
 def describe_model(M):
